@@ -74,16 +74,17 @@ theorem sortPerm_perm (lt : α → α → Bool) (isNull : α → Bool) (naFirst 
     (kcols : List (Bool × List α)) : (sortPerm lt isNull naFirst ords kcols).Perm (List.range ords.length) :=
   List.mergeSort_perm _ _
 
-theorem sortPerm_sorted (lt : α → α → Bool) (isNull : α → Bool) (naFirst : Bool) (h : StrictWeak lt)
-    (ords : List Label) (kcols : List (Bool × List α)) :
+theorem sortPerm_sorted (lt : α → α → Bool) (isNull : α → Bool) (naFirst : Bool)
+    (ords : List Label) (kcols : List (Bool × List α)) (h : KeysOrdered lt isNull kcols) :
     (sortPerm lt isNull naFirst ords kcols).Pairwise (fun p q => sortLe lt isNull naFirst ords kcols p q = true) :=
-  List.pairwise_mergeSort (fun a b c => sortLe_trans lt isNull naFirst h ords kcols a b c)
-    (fun a b => sortLe_total lt isNull naFirst h ords kcols a b) _
+  List.pairwise_mergeSort (fun a b c => sortLe_trans lt isNull naFirst ords kcols h a b c)
+    (fun a b => sortLe_total lt isNull naFirst ords kcols h a b) _
 
 /-- **the sort never moves a record to another row**: read through the permutation, a
     non-decreasing ordinal index is unchanged -/
-theorem sortPerm_keeps_ordinals (lt : α → α → Bool) (isNull : α → Bool) (naFirst : Bool) (h : StrictWeak lt)
-    (ords : List Label) (hs : ords.Pairwise (fun a b => a.le b = true)) (kcols : List (Bool × List α)) :
+theorem sortPerm_keeps_ordinals (lt : α → α → Bool) (isNull : α → Bool) (naFirst : Bool)
+    (ords : List Label) (hs : ords.Pairwise (fun a b => a.le b = true)) (kcols : List (Bool × List α))
+    (h : KeysOrdered lt isNull kcols) :
     (sortPerm lt isNull naFirst ords kcols).map (fun p => ords.getD p (.int 0)) = ords := by
   have hperm : ((sortPerm lt isNull naFirst ords kcols).map (fun p => ords.getD p (.int 0))).Perm ords := by
     have := (sortPerm_perm lt isNull naFirst ords kcols).map (fun p => ords.getD p (.int 0))
@@ -92,7 +93,7 @@ theorem sortPerm_keeps_ordinals (lt : α → α → Bool) (isNull : α → Bool)
   have hsorted : ((sortPerm lt isNull naFirst ords kcols).map (fun p => ords.getD p (.int 0))).Pairwise
       (fun a b => a.le b = true) := by
     rw [List.pairwise_map]
-    exact (sortPerm_sorted lt isNull naFirst h ords kcols).imp (fun hpq => sortLe_ordinal lt isNull naFirst ords kcols _ _ hpq)
+    exact (sortPerm_sorted lt isNull naFirst ords kcols h).imp (fun hpq => sortLe_ordinal lt isNull naFirst ords kcols _ _ hpq)
   exact List.Perm.eq_of_pairwise (fun a b _ _ h1 h2 => Label.le_antisymm a b h1 h2) hsorted hs hperm
 
 end
@@ -142,10 +143,11 @@ theorem reorder_ordFlat (cols : List (String × String × List (List α))) (lens
     rw [← splitBy_map, (splitBy_flatten' lens _ (by rw [List.length_map]; exact hlen)).1]
 
 /-- **`sort_values` on a nested layer, end to end.** -/
-theorem sortNested_rows (lt : α → α → Bool) (isNull : α → Bool) (hlt : StrictWeak lt) (F : NFrame α)
+theorem sortNested_rows (lt : α → α → Bool) (isNull : α → Bool) (F : NFrame α)
     (nest : String) (c : PCol α) (hc : F.nest? nest = .ok c) (hclean : c.Clean) (hch : c.chunks ≠ [])
     (hidx : F.index.length = c.len) (keys : List (String × Bool))
-    (hkeys : ∀ k ∈ keys, c.ty.any (·.1 == k.1) = true) (naFirst : Bool) :
+    (hkeys : ∀ k ∈ keys, c.ty.any (·.1 == k.1) = true) (naFirst : Bool)
+    (hlt : KeysOrdered lt isNull (sortKeyCols (ordFlat (colLists c) (c.rows.map Row.len)) keys)) :
     let lens := c.rows.map Row.len
     let flat := ordFlat (colLists c) lens
     let kcols := sortKeyCols flat keys
@@ -175,7 +177,7 @@ theorem sortNested_rows (lt : α → α → Bool) (isNull : α → Bool) (hlt : 
   have hplen : perm.length = sumNat lens := by
     rw [(sortPerm_perm lt isNull naFirst flat.index kcols).length_eq, List.length_range, hords, ordIndex_length]
   have hpidx : perm.map (fun p => (ordIndex 0 lens).getD p (.int 0)) = ordIndex 0 lens :=
-    sortPerm_keeps_ordinals lt isNull naFirst hlt (ordIndex 0 lens) (ordIndex_pairwise 0 lens) kcols
+    sortPerm_keeps_ordinals lt isNull naFirst (ordIndex 0 lens) (ordIndex_pairwise 0 lens) kcols hlt
   let blocks := Spec.splitBy lens perm
   have ⟨hbflat, hblens⟩ := splitBy_flatten' lens perm hplen
   let cols' : List (String × String × List (List α)) := (colLists c).map fun f => (f.1, f.2.1,
@@ -243,7 +245,7 @@ theorem sortNested_rows (lt : α → α → Bool) (isNull : α → Bool) (hlt : 
     rw [hbe, ← hrun']
     have hsub := List.filter_sublist (l := perm)
       (p := fun p => (ordIndex 0 lens).getD p (.int 0) == Label.int ((0 + i : Nat) : Int))
-    have hsorted := (sortPerm_sorted lt isNull naFirst hlt flat.index kcols).sublist hsub
+    have hsorted := (sortPerm_sorted lt isNull naFirst flat.index kcols hlt).sublist hsub
     rw [List.pairwise_iff_forall_sublist] at hsorted ⊢
     intro p q hpq
     have hle := hsorted hpq
@@ -347,10 +349,11 @@ variable [Inhabited α]
     records, and otherwise is, for EVERY field at once, the old lists of row `i` read through one
     permutation `σ` of `0..len-1` (whole records move together; none lost, duplicated or taken
     from another row), and `σ` is ordered by the requested keys, directions and null placement. -/
-theorem sortNested_permutes_rows (lt : α → α → Bool) (isNull : α → Bool) (hlt : StrictWeak lt) (F : NFrame α)
+theorem sortNested_permutes_rows (lt : α → α → Bool) (isNull : α → Bool) (F : NFrame α)
     (nest : String) (c : PCol α) (hc : F.nest? nest = .ok c) (hclean : c.Clean) (hch : c.chunks ≠ [])
     (hidx : F.index.length = c.len) (keys : List (String × Bool))
-    (hkeys : ∀ k ∈ keys, c.ty.any (·.1 == k.1) = true) (naFirst : Bool) :
+    (hkeys : ∀ k ∈ keys, c.ty.any (·.1 == k.1) = true) (naFirst : Bool)
+    (hlt : KeysOrdered lt isNull (sortKeyCols (ordFlat (colLists c) (c.rows.map Row.len)) keys)) :
     let lens := c.rows.map Row.len
     let kcols := sortKeyCols (ordFlat (colLists c) lens) keys
     ∃ col : PCol α, F.sortNested lt isNull nest keys naFirst = .ok (F.setCol nest (.nest col)) ∧
@@ -362,7 +365,7 @@ theorem sortNested_permutes_rows (lt : α → α → Bool) (isNull : α → Bool
           (sortKeysAt kcols (rowStart lens i + q) (rowStart lens i + r)) = true) := by
   intro lens kcols
   obtain ⟨blocks, col, hok, hrows, hblens, hperm, hsorted⟩ :=
-    sortNested_rows lt isNull hlt F nest c hc hclean hch hidx keys hkeys naFirst
+    sortNested_rows lt isNull F nest c hc hclean hch hidx keys hkeys naFirst hlt
   have hn : lens.length = F.index.length := by
     show (c.rows.map Row.len).length = _
     rw [List.length_map, PCol.rows_length, hidx]
